@@ -3,7 +3,9 @@
 set -e
 cd /verif
 b=$1
-git merge --no-commit --no-ff "$b" >/dev/null 2>&1 || true
+# local evidence edits (from check runs) must not block the merge
+git checkout -- evidence 2>/dev/null || true
+git merge --no-commit --no-ff "$b" >/tmp/merge.log 2>&1 || true
 for f in MANIFEST.json lean/Driver.lean lean/RigModel.lean $(git diff --name-only --diff-filter=U | grep "^evidence/"); do
   git checkout --ours -- $f 2>/dev/null || true
 done
@@ -11,5 +13,5 @@ python3 tools/mk_driver.py
 python3 tools/mk_manifest.py
 git add -A
 git status --short | grep -E "^(UU|AA|DU|UD)" && { echo "CONFLICTS remain"; exit 1; }
-git commit -q -m "Merge $b"
-echo merged $b
+git commit -q -m "Merge $b" || true
+if git merge-base --is-ancestor "$b" HEAD; then echo "merged $b"; else echo "MERGE FAILED for $b:"; cat /tmp/merge.log; exit 1; fi
